@@ -134,6 +134,8 @@ def check_history(case, ctx):
             if all(x is None for x in params):
                 continue
             _do_insert(obj, params, nums, st_["form"])
+            if obj.rational and len(ledger) % 2 == 0:
+                _ = list(obj.weights)          # only the weights of the grown net are looked at (not the unweighted points)
             for k in range(pdim):
                 if params[k] is not None:
                     for e in ledger:
